@@ -30,6 +30,7 @@ KEY_LINEAR = 'C05:MPSLinear:spec-keys'
 KEY_F14 = 'C05:per-channel:0bit:alive-over-total'
 KEY_MPIC_DW = 'C05:mpic_latency:depthwise:per-channel-0bit'
 KEY_INCOMP = 'C05:effective-in-features:mps-module-in-input-component'
+KEY_REUSE = 'C05:layer-reuse:per-invocation-shape'
 LT_NAME = {'Conv1d': 'conv1d', 'Conv2d': 'conv2d', 'Linear': 'linear'}
 
 
@@ -175,6 +176,11 @@ def _geometry(desc):
         elif ins[0] == 'dw':
             g[i] = {'kind': 'dw', 'k': ins[2] ** desc['dim'], 'pos': sp[i] ** desc['dim'], 'bias': int(bool(ins[4]) or i in has_bn),
                     'cin': ch[ins[1]], 'cout': ch[ins[1]], 'ks': ins[2], 'o': sp[i]}
+        elif ins[0] == 'reuse':
+            of = desc['prog'][ins[2]]
+            g[i] = {'kind': 'conv', 'k': of[3] ** desc['dim'], 'pos': sp[i] ** desc['dim'],
+                    'bias': int(bool(of[5]) or ins[2] in has_bn), 'cin': ch[ins[1]], 'cout': of[2], 'ks': of[3], 'o': sp[i],
+                    'reuse_of': ins[2]}
         elif ins[0] == 'lin':
             g[i] = {'kind': 'lin', 'k': 1, 'pos': 1, 'bias': int(bool(ins[3]) or i in has_bn), 'cin': ch[ins[1]], 'cout': ins[2],
                     'ks': 1, 'o': 1}
@@ -190,7 +196,7 @@ def _alive_counts(desc, wbits):
         op = ins[0]
         if op == 'input':
             alive.append(desc['C0'])
-        elif op in ('conv', 'dw', 'lin'):
+        elif op in ('conv', 'dw', 'lin', 'reuse'):
             alive.append(sum(1 for b in wbits[i] if b != 0))
         elif op == 'flat':
             alive.append(alive[ins[1]] * sp[ins[1]] ** desc['dim'])
@@ -227,7 +233,7 @@ def _exact_costs(desc, wbits, inbits, ne16_fn=None):
             for b, n in groups.items():
                 if b != 0:
                     ne += float(ne16_fn(g, n, ain, b))
-        out[i] = {'pb': pb, 'ob': ob, 'mpic': mp, 'ne16': ne, 'alive_in': ain,
+        out[i] = {'pb': pb, 'ob': ob, 'mpic': mp, 'ne16': ne, 'alive_in': ain, 'dup': 'reuse_of' in g,
                   'alive_out': sum(1 for b in wbits[i] if b != 0), 'pruned': sum(1 for b in wbits[i] if b == 0)}
     return out
 
@@ -339,7 +345,8 @@ def _run_case(case):
         # ---- oracle: the exact cost of the assignment summary() reports
         ex = _exact_costs(desc, wbits, inbits, _ne16_sub if ne16 else None)
         res['pruned_layers'] = sum(1 for v in ex.values() if v['pruned'])
-        res['exact'] = {'pb': sum(v['pb'] for v in ex.values()), 'ob': sum(v['ob'] for v in ex.values())}
+        res['exact'] = {'pb': sum(v['pb'] for v in ex.values() if not v['dup']), 'ob': sum(v['ob'] for v in ex.values())}
+        res['reuse'] = any(v['dup'] for v in ex.values())
         big = res['exact']['ob'] >= 2 ** 24
         res['big'] = big
         pc0 = 0 in cfg['wp']
@@ -378,8 +385,10 @@ def _run_case(case):
                     res['fail'].append((cost_key(ii, 'ops_bit'), 'ops_bit of layer %s is %s but its assignment in summary() '
                                         'performs %d bit-operations' % (name, per_layer[ii]['ops_bit'], ex[ii]['ob'])))
             if not res['fail'] and (totals['params_bit'] != res['exact']['pb'] or totals['ops_bit'] != res['exact']['ob']):
-                res['fail'].append(('C05:total:%s' % case['family'], 'network cost (%s, %s) but the layers of the assignment sum to '
-                                    '(%d, %d)' % (totals['params_bit'], totals['ops_bit'], res['exact']['pb'], res['exact']['ob'])))
+                res['fail'].append((KEY_REUSE if res['reuse'] else 'C05:total:%s' % case['family'],
+                                    'network cost (params_bit %s, ops_bit %s) but the assignment costs (%d, %d): params_bit once '
+                                    'per layer, ops_bit summed over all layer invocations with the output size of each'
+                                    % (totals['params_bit'], totals['ops_bit'], res['exact']['pb'], res['exact']['ob'])))
         if mpic_ok:
             for mi_, ii, mod, node, name in layers:
                 if not _close(mp_real[mi_], ex[ii]['mpic']):
@@ -389,6 +398,18 @@ def _run_case(case):
                         key = cost_key(ii, 'mpic_latency')
                     res['fail'].append((key, 'mpic_latency of layer %s (%s) is %.4f, its assignment costs %.4f'
                                         % (name, geo[ii]['kind'], mp_real[mi_], ex[ii]['mpic'])))
+        if mpic_ok and not res['fail']:
+            tot_mp = sum(v['mpic'] for v in ex.values())
+            if not _close(totals['mpic_latency'], tot_mp):
+                res['fail'].append((KEY_REUSE if res['reuse'] else 'C05:total:mpic_latency:%s' % case['family'],
+                                    'network mpic_latency %.4f but the layer invocations of the assignment sum to %.4f'
+                                    % (totals['mpic_latency'], tot_mp)))
+        if ne16 and not res['fail']:
+            tot_ne = sum(v['ne16'] for v in ex.values())
+            if not _close(totals['ne16_latency'], tot_ne):
+                res['fail'].append((KEY_REUSE if res['reuse'] else 'C05:total:ne16_latency:%s' % case['family'],
+                                    'network ne16_latency %.3f but the layer invocations of the assignment sum to %.3f'
+                                    % (totals['ne16_latency'], tot_ne)))
         if ne16:
             for mi_, ii, mod, node, name in layers:
                 if not _close(ne_real[ii], ex[ii]['ne16']):
@@ -400,10 +421,11 @@ def _run_case(case):
             pbx = obx = 0
             for mi_, ii, mod, node, name in layers:
                 l = e.get_submodule(name)
-                pbx += l.weight.numel() * int(l.w_quantizer.precision)
+                if not ex[ii]['dup']:
+                    pbx += l.weight.numel() * int(l.w_quantizer.precision)
                 obx += l.weight.numel() * int(l.w_quantizer.precision) * int(l.in_quantizer.precision) * _geometry(desc)[ii]['pos']
             if totals['params_bit'] != pbx or totals['ops_bit'] != obx:
-                res['fail'].append(('C05:exported-numel:%s' % case['family'],
+                res['fail'].append((KEY_REUSE if res['reuse'] else 'C05:exported-numel:%s' % case['family'],
                                     'cost (%s, %s) but the exported layers hold %d weight bits / %d bit-ops'
                                     % (totals['params_bit'], totals['ops_bit'], pbx, obx)))
     except Exception as ex_:
@@ -425,9 +447,15 @@ def _gen_cases(rng, n):
         probe_in = (k % 10 == 8)
         if probe_in:
             fam, dim = 'pc0', 2
-        desc = mc.gen_desc(rng, couts=(2, 3, 4) if fam == 'pl' else (2, 4, 8), dim=dim,
-                           first='dw' if (probe_in or (k % 11 == 4 and dim == 2)) else None,
-                           dw_k=(3,) if ne16 else (1, 3))
+        reuse = (k % 6 == 1) and not probe_in
+        if reuse:
+            # one conv module invoked at two resolutions (non-shared metrics are per call site)
+            dim = 2
+            desc = mc.gen_reuse_desc(rng, couts=(2, 3, 4) if fam == 'pl' else (2, 4, 8))
+        else:
+            desc = mc.gen_desc(rng, couts=(2, 3, 4) if fam == 'pl' else (2, 4, 8), dim=dim,
+                               first='dw' if (probe_in or (k % 11 == 4 and dim == 2)) else None,
+                               dw_k=(3,) if ne16 else (1, 3))
         cfg = mc.make_cfg(rng, pc=fam != 'pl', zero=fam == 'pc0', ne16=ne16)
         if probe_in:
             cfg['prune_p'] = 0.5
@@ -569,7 +597,8 @@ def _judge(chk, case, res):
 def run(chk):
     chk.rule = ('(a) spec-key table extracted from the source of every class in mps_layer_map; (b) bit-cost functions on '
                 'random integer grids (layer type x depthwise x sizes x precisions); (c) random nets of the C02 grammar '
-                '(every 9th a Conv1d net) x {per-layer any tuples, per-channel, per-channel with 0-bit and pruned channels} '
+                '(every 9th a Conv1d net, every 6th a net in which one conv module is invoked at two resolutions on tensors of '
+                'one producer) x {per-layer any tuples, per-channel, per-channel with 0-bit and pruned channels} '
                 'x eval mode / training with hard sampling, widths powers of two in per-channel search so that shares '
                 'are dyadic and every float32 cost below 2^24 is an exact integer; ne16 on nets it applies to (8-bit '
                 'activations, 1x1/3x3, depthwise 3x3); (d) producer pruned channel by channel in 6 producer->consumer '
@@ -629,7 +658,7 @@ def run(chk):
                   sample={'prog': case['desc']['prog'], 'family': case['family'], 'wp': cfg['wp'], 'ap': cfg['ap'],
                           'mode': case['mode'], 'cost': r.get('cost')})
         for hk in ('mode:' + case['mode'], 'dim:%d' % case['desc']['dim'], 'ne16:%d' % case['ne16'],
-                   'pruned_layers>0:%d' % int(r.get('pruned_layers', 0) > 0)):
+                   'pruned_layers>0:%d' % int(r.get('pruned_layers', 0) > 0), 'layer-reuse:%d' % int(bool(r.get('reuse')))):
             chk.hist[hk] = chk.hist.get(hk, 0) + 1
         if r.get('big'):
             chk.hist['skipped:cost>=2^24'] = chk.hist.get('skipped:cost>=2^24', 0) + 1
